@@ -226,42 +226,49 @@ def splitChar (c : Char) : Str → List Str
 /-- `number = (number << 5) + digit` over a list -/
 def shiftIn (sh : Nat) (l : List Nat) : Nat := l.foldl (fun n d => (n <<< sh) + d) 0
 
-/-- bech32.decode_bech32; returns (network, version, program); `none` = any exception.
-    No upper bound on the version is enforced (observation O09b) and padding bits are ignored. -/
-def decodeBech32 (s : Str) : Option (Str × Nat × Bytes) :=
+/-- the first lines of decode_bech32: `(hrp, raw_data)`; `none` = KeyError / ValueError of the
+    tuple unpacking (`s.split("1")` must give exactly two pieces).  For a string starting with
+    the regtest prefix the fifth character is skipped without being looked at. -/
+def splitHrp (s : Str) : Option (Str × Str) :=
   match dictGet Gen.prefixKeys Gen.prefixVals Gen.decB32RegtestKey.toList with
   | none => none
   | some regtestPrefix =>
-    let split : Option (Str × Str) :=
-      if regtestPrefix.isPrefixOf s then some (regtestPrefix, s.drop Gen.decB32RegtestSkip)
-      else match Gen.decB32Sep.toList with
-        | [c] => (match splitChar c s with
-                  | [a, b] => some (a, b)
-                  | _ => none)
-        | _ => none   -- a multi-character separator is outside the model
-    match split with
-    | none => none
-    | some (hrp, rawData) =>
-      match netForPrefix hrp with
+    if regtestPrefix.isPrefixOf s then some (regtestPrefix, s.drop Gen.decB32RegtestSkip)
+    else match Gen.decB32Sep.toList with
+      | [c] => (match splitChar c s with
+                | [a, b] => some (a, b)
+                | _ => none)
+      | _ => none   -- a multi-character separator is outside the model
+
+/-- the rest of decode_bech32 once `hrp` and `raw_data` are known -/
+def decodeBody (hrp rawData : Str) : Option (Str × Nat × Bytes) :=
+  match netForPrefix hrp with
+  | none => none
+  | some network =>
+    if network = [] then none else
+    match rawData.mapM (fun c => indexOf? c alphabet), hrpExpand hrp with
+    | some (version :: dtail), some hx =>
+      let data := version :: dtail
+      let ok := if cmpAt Gen.decB32Cmp 0 version then verifyChecksum (hx ++ data) else verifyChecksumM (hx ++ data)
+      if ¬ ok then none else
+      let n := data.length
+      -- for n < 7 Python's floor division makes num_bytes negative and to_bytes raises
+      if n < Gen.decB32Overhead ∨ n < Gen.decB32Overhead2 then none else
+      let number := shiftIn Gen.decB32Shl ((data.take (n - Gen.decB32BodyCut)).drop Gen.decB32BodyFrom)
+      let numBytes := (n - Gen.decB32Overhead) * Gen.decB32GroupBits / Gen.decB32ByteBits
+      let ignore := (n - Gen.decB32Overhead2) * Gen.decB32GroupBits2 % Gen.decB32ByteBits2
+      match natToBE (number >>> ignore) numBytes with
       | none => none
-      | some network =>
-        if network = [] then none else
-        match rawData.mapM (fun c => indexOf? c alphabet), hrpExpand hrp with
-        | some (version :: dtail), some hx =>
-          let data := version :: dtail
-          let ok := if cmpAt Gen.decB32Cmp 0 version then verifyChecksum (hx ++ data) else verifyChecksumM (hx ++ data)
-          if ¬ ok then none else
-          let n := data.length
-          -- for n < 7 Python's floor division makes num_bytes negative and to_bytes raises
-          if n < Gen.decB32Overhead ∨ n < Gen.decB32Overhead2 then none else
-          let number := shiftIn Gen.decB32Shl ((data.take (n - Gen.decB32BodyCut)).drop Gen.decB32BodyFrom)
-          let numBytes := (n - Gen.decB32Overhead) * Gen.decB32GroupBits / Gen.decB32ByteBits
-          let ignore := (n - Gen.decB32Overhead2) * Gen.decB32GroupBits2 % Gen.decB32ByteBits2
-          match natToBE (number >>> ignore) numBytes with
-          | none => none
-          | some hash =>
-            if cmpAt Gen.decB32Cmp 1 numBytes ∨ cmpAt Gen.decB32Cmp 2 numBytes then none
-            else some (network, version, hash)
-        | _, _ => none
+      | some hash =>
+        if cmpAt Gen.decB32Cmp 1 numBytes ∨ cmpAt Gen.decB32Cmp 2 numBytes then none
+        else some (network, version, hash)
+    | _, _ => none
+
+/-- bech32.decode_bech32; returns (network, version, program); `none` = any exception.
+    No upper bound on the version is enforced (observation O09b) and padding bits are ignored. -/
+def decodeBech32 (s : Str) : Option (Str × Nat × Bytes) :=
+  match splitHrp s with
+  | none => none
+  | some (hrp, rawData) => decodeBody hrp rawData
 
 end Buidl.Bech32
